@@ -1,4 +1,6 @@
 import TrucModel.Proofs.TypeNameProps
+import TrucModel.Proofs.LexProps
+import TrucModel.Model.Resolver
 /-
   C17 — A recorded type name denotes the same type in generated code.
   Types are syntax trees of any depth over paths with generic arguments, tuples, arrays and slices.
@@ -23,6 +25,28 @@ theorem C17_short_long (m1 m2 x : String) (args : Tys) (h : preludePath x = some
     split at h <;> simp at h <;> obtain ⟨rfl, rfl⟩ := h <;> decide
   have hshort : isStdPath false [x] = false := not_std_of_short (by simp)
   simp [rewrite, Segs.names, hstd, hshort, rewriteSegs, Segs.lastOnly, rewriteTys]
+
+/-- whitespace is ignored: two spellings of the same token sequence — any amount of whitespace (also
+    none) before, between and after the tokens, as long as two adjacent identifiers stay separated —
+    are normalised identically (same result, or both rejected), hence looked up identically in a table -/
+theorem C17_whitespace (items₁ items₂ : List (List Char × Tok)) (tr₁ tr₂ : List Char)
+    (h₁ : Spaced false items₁) (h₂ : Spaced false items₂) (ht₁ : allWs tr₁) (ht₂ : allWs tr₂)
+    (hsame : items₁.map (fun p => p.2.str) = items₂.map (fun p => p.2.str)) :
+    normalize (String.ofList (render items₁ tr₁)) = normalize (String.ofList (render items₂ tr₂)) ∧
+    ∀ (t : Res.Table), Res.lookup t (String.ofList (render items₁ tr₁)) = Res.lookup t (String.ofList (render items₂ tr₂)) := by
+  have hl : lex (render items₁ tr₁) [] [] = lex (render items₂ tr₂) [] [] := by
+    rw [lex_render items₁ tr₁ [] [] ht₁ h₁, lex_render items₂ tr₂ [] [] ht₂ h₂, hsame]
+  have hn : normalize (String.ofList (render items₁ tr₁)) = normalize (String.ofList (render items₂ tr₂)) := by
+    unfold normalize parse
+    simp only [String.toList_ofList, hl]
+  exact ⟨hn, fun t => by unfold Res.lookup; rw [hn]⟩
+
+/-- non-vacuity: `Vec<u8>` and `  Vec < u8 >\t` are two spellings of the same tokens -/
+example : Spaced false [([], .ident "Vec".toList), ([], .punct '<'), ([], .ident "u8".toList), ([], .punct '>')] ∧
+    Spaced false [("  ".toList, .ident "Vec".toList), (" ".toList, .punct '<'), (" ".toList, .ident "u8".toList), (" ".toList, .punct '>')] ∧
+    String.ofList (render [([], .ident "Vec".toList), ([], .punct '<'), ([], .ident "u8".toList), ([], .punct '>')] []) = "Vec<u8>" := by
+  refine ⟨?_, ?_, by decide +kernel⟩ <;>
+    simp [Spaced, Tok.wf, Tok.isIdent, allWs] <;> decide
 
 /-- non-vacuity: concrete names at depth 3, several spellings -/
 example : normalize "alloc::vec::Vec<core::option::Option<(u32, alloc::boxed::Box<[u8]>)>>" = some "Vec < Option < (u32 , Box < [u8] >) > >" ∧
